@@ -113,7 +113,7 @@ def run_core_shard(sh, mod):
             def fails(s):
                 try:
                     _, f2, _, _ = evaluate(mod, cfg, s)
-                except HarnessError:
+                except Exception:      # a candidate that cannot be evaluated is not a reduction
                     return False
                 return any(f["clause"] == clause for f in col_filter_quiet(col, f2))
             if tier == "quick":
